@@ -66,6 +66,7 @@ type Engine struct {
 	globalInit  map[*ssa.Global]ssa.Value
 
 	contentMode bool
+	curProp     string // property being verified ("" = all)
 }
 
 func loadEngine(repo string) (*Engine, error) {
@@ -518,7 +519,7 @@ func (e *Engine) summary0(fn *ssa.Function) *NameSet {
 		}
 		for _, item := range c.Modifies {
 			switch {
-			case item == "bytes":
+			case item == "bytes", strings.HasPrefix(item, "bytesof "):
 				ns.Add("E|uint8|0")
 			case item == "all":
 				ns.All = true
@@ -661,16 +662,26 @@ func (e *Engine) instrWrites(fc *FnCtx, in ssa.Instruction, ns *NameSet) {}
 // ---------------------------------------------------------------------------
 // contracts
 
-func (e *Engine) contractFiles() map[string]string {
-	return map[string]string{
-		"sftp":     filepath.Join(e.repo, "verif_contracts.go"),
-		"sshfx":    filepath.Join(e.repo, "internal/encoding/ssh/filexfer/verif_contracts.go"),
-		"openssh":  filepath.Join(e.repo, "internal/encoding/ssh/filexfer/openssh/verif_contracts.go"),
+// contractFiles: package name -> contract files (comment-only Go files behind the build tag verif). Files after the
+// first may only add to what the first declares ("extend func" blocks, further functions, preds, ghosts).
+func (e *Engine) contractFiles() [][2]string {
+	return [][2]string{
+		{"sftp", filepath.Join(e.repo, "verif_contracts.go")},
+		{"sftp", filepath.Join(e.repo, "verif_contracts_c06.go")},
+		{"sshfx", filepath.Join(e.repo, "internal/encoding/ssh/filexfer/verif_contracts.go")},
+		{"sshfx", filepath.Join(e.repo, "internal/encoding/ssh/filexfer/verif_contracts_c06.go")},
+		{"openssh", filepath.Join(e.repo, "internal/encoding/ssh/filexfer/openssh/verif_contracts.go")},
 	}
 }
 
 func (e *Engine) loadContracts() error {
-	for pkg, path := range e.contractFiles() {
+	type ext struct {
+		pkg string
+		c   *Contract
+	}
+	var extends []ext
+	for _, pp := range e.contractFiles() {
+		pkg, path := pp[0], pp[1]
 		if _, err := os.Stat(path); err != nil {
 			continue
 		}
@@ -703,6 +714,9 @@ func (e *Engine) loadContracts() error {
 			}
 			e.ghosts[g.Name] = t
 		}
+		for _, x := range cf.Extends {
+			extends = append(extends, ext{pkg, x})
+		}
 		e.lemmas = append(e.lemmas, cf.Lemmas...)
 		for _, p := range cf.Preds {
 			if e.preds == nil {
@@ -710,6 +724,17 @@ func (e *Engine) loadContracts() error {
 			}
 			e.preds[pkg+"."+p.Name] = p
 		}
+	}
+	for _, x := range extends {
+		key := x.pkg + "." + x.c.Func
+		if isForeignName(x.c.Func) {
+			key = x.c.Func
+		}
+		base := e.contracts[key]
+		if base == nil {
+			return fmt.Errorf("%s:%d: extend func %s: no contract to extend", x.c.File, x.c.Line, x.c.Func)
+		}
+		base.mergeExtension(x.c)
 	}
 	// every contract must name an existing function (or a foreign one / interface method)
 	for key, c := range e.contracts {
